@@ -246,6 +246,11 @@ func checkC01(c *Check) {
 	// line (its own subjects map, the PID of that line): rules of C05
 	nl := importRules(c, "C05", checkC05, "login-as-parsed: ", "same-event", "event-slots", "cred-user-id", "pid-from-line")
 	c.Floor("imported login-as-parsed obligations", 10, nl)
+	// ... and stays what it was: nothing on the correlator's side writes
+	// through the login's event, whose subjects every event of the session
+	// is rendered from (rule S7 of C03)
+	ns := importRules(c, "C03", checkC03, "login-unaltered: ", "S7 login-event-read-only")
+	c.Floor("imported login-unaltered obligations", 1, ns)
 }
 
 // renderRule: the renderer copies identity only from the receiver's login.
